@@ -55,6 +55,9 @@ func buildOverlay(dirs []string) (map[string][]byte, map[string][]string, error)
 		return nil, nil, err
 	}
 	ov[filepath.Join(repoDir, "internal", "vx", "vx.go")] = vxsrc
+	if b, err := os.ReadFile(filepath.Join(verifDir, "vxsql", "vxsql.go")); err == nil {
+		ov[filepath.Join(repoDir, "internal", "vxsql", "vxsql.go")] = b
+	}
 	for _, d := range dirs {
 		files, _ := filepath.Glob(filepath.Join(verifDir, "harness", d, "*.go"))
 		sort.Strings(files)
